@@ -202,6 +202,28 @@ def run(res, tier):
             res.bad("R-MODSET", f"{k[1]}:{e['field']}", f["file"], e["line"],
                     f"{k[1]} (reachable from mj_forward) may modify state field d->{e['field']} ({sf[e['field']]}) via {e['kind']}"
                     + (f" to {e.get('callee')}()" if e.get("callee") else ""))
+    # ------------------------------------------------------------- R-STAGE-INPUT
+    # the split API lets the user set controls between mj_step1 and mj_step2: nothing computed by the position / velocity stages
+    # (everything mj_step1 runs before the control callback) may read d->ctrl, or the staged and the monolithic step disagree
+    # whenever the control changes in between
+    res.rule("R-STAGE-INPUT", "no function in the closure of the position and velocity stages reads d->ctrl", floor=2)
+    gr = callgraph.build(reads=True)
+    for stage in ("mj_fwdPosition", "mj_fwdVelocity"):
+        ks = gr.find(stage)
+        if ks is None:
+            raise AnalysisError(f"anchor {stage} not found")
+        offenders = []
+        for k2 in sorted(gr.closure([ks])):
+            for e in gr.funcs[k2]["events"]:
+                if e["struct"] == "mjData" and e["field"] == "ctrl" and e["kind"] in ("read", "pass", "addr", "alias", "elem", "assign"):
+                    offenders.append((k2, e))
+        if offenders:
+            k2, e = offenders[0]
+            res.bad("R-STAGE-INPUT", f"{stage}:ctrl", gr.funcs[k2]["file"], e["line"],
+                    f"{k2[1]} (in the closure of {stage}, which mj_step1 runs before the user sets controls) reads d->ctrl: its result is "
+                    f"stale when the control changes between mj_step1 and mj_step2, so the staged step differs from mj_step")
+        else:
+            res.ok("R-STAGE-INPUT", f"{stage}:ctrl", {"closure_functions": len(gr.closure([ks]))})
     ext = g.external_calls(clo)
     res.extra["external_callees_of_forward_closure"] = sorted(ext)[:60]
 
